@@ -327,7 +327,9 @@ Fixpoint select {A} (flags : list bool) (l : list A) : list A :=
    statement of the goroutine, not of handleOffer). *)
 Inductive rx_event : Type :=
 | EvOffer (keys : list bytes)
-| EvGoroutineRuns (n : nat).            (* the n-th pending receive goroutine reaches cacheTransferringKeys *)
+| EvGoroutineRuns (n : nat)             (* the n-th pending receive goroutine reaches cacheTransferringKeys *)
+| EvTransferEnds (n : nat).             (* the n-th receive goroutine returns: deferred deleteTransferringContentKeys(contentKeys),
+                                           contentKeys = the keys THAT offer accepted *)
 
 Record rx_state : Type := {
   rx_marked : list bytes;               (* transferringKeyCache *)
@@ -338,6 +340,8 @@ Definition rx_init : rx_state := {| rx_marked := []; rx_pending := []; rx_accept
 
 Fixpoint mem_bytes (k : bytes) (l : list bytes) : bool :=
   match l with [] => false | x :: r => bytes_eqb k x || mem_bytes k r end.
+(* transferringKeyCache.Del(key) for every key of ks *)
+Definition unmark (ks marked : list bytes) : list bytes := filter (fun m => negb (mem_bytes m ks)) marked.
 
 (* sync_mark = true models a handleOffer that marks before it replies *)
 Definition rx_step (sync_mark : bool) (s : rx_state) (e : rx_event) : rx_state :=
@@ -350,6 +354,11 @@ Definition rx_step (sync_mark : bool) (s : rx_state) (e : rx_event) : rx_state :
   | EvGoroutineRuns n =>
       match nth_error (rx_pending s) n with
       | Some ks => {| rx_marked := ks ++ rx_marked s; rx_pending := rx_pending s; rx_accepted := rx_accepted s |}
+      | None => s
+      end
+  | EvTransferEnds n =>
+      match nth_error (rx_pending s) n with
+      | Some ks => {| rx_marked := unmark ks (rx_marked s); rx_pending := rx_pending s; rx_accepted := rx_accepted s |}
       | None => s
       end
   end.
